@@ -22,6 +22,8 @@ package auth
 //@   ensures[C07] halfauth_only_cleared_by_login: each Sess.Del("halfauth") => before Sess.Put("uid", _)
 //@   -- C09: a login is announced with the after-auth event (which is what starts the idle clock)
 //@   ensures[C09] login_announced: each Sess.Put("uid", _) => after Fire("After", EventAuth, _, _, _)
+//@   -- C09: the stamp the announcement queues is not taken back by anything queued after it
+//@   ensures[C09] stamp_survives: each Fire("After", EventAuth, _, _, _) => !(after Sess.DelAll(_)) && !(after Sess.Del("last_action"))
 //@   ensures[C01] only_uid_and_halfauth: each Sess.Put(?k, _) => k == "uid"
 //@
 //@   -- C02: the auth-hijack event (2FA interception) is fired, for the user being
@@ -32,6 +34,10 @@ package auth
 //@   -- C03: the before-auth event (lock / confirm veto) was fired for that user
 //@   ensures[C03] login_veto: each Sess.Put("uid", ?v) =>
 //@       before Fire("Before", EventAuth, ?cu, _, _) -> (?hd, ?e) :: hd == false && e == nil && PID(cu) == v
+//@   -- C03: the 2FA hijack parks the login for a later step that does not consult the veto again
+//@   -- (known finding on that step), so the hijack is only offered a login the veto let through
+//@   ensures[C03] veto_before_hijack: each Fire("Before", EventAuthHijack, ?hu, _, _) =>
+//@       before Fire("Before", EventAuth, ?cu, _, _) -> (?hd, ?e) :: hd == false && e == nil && cu == hu
 //@
 //@   -- C04: every credential failure is reported for the account attempted; a
 //@   -- correct password never is
